@@ -2,7 +2,7 @@
    ONLY statements: each theorem is closed by `exact` of a lemma proved elsewhere and followed by Print Assumptions. *)
 From Coq Require Import ZArith NArith List Bool Lia Permutation String FMapPositive.
 Import ListNotations.
-Require Import Isolation Base Strings Num Builtins Interp Machine Spec Refine2 FuelMono.
+Require Import Isolation Base Strings Num Builtins Interp Machine Spec Refine2 FuelMono ManySeq.
 
 (* REGENERATED from the source: the uses of hash / id / set / frozenset / os.listdir are exactly the audited ones *)
 Theorem nondet_sources_declared  :
@@ -26,4 +26,25 @@ Theorem spec_deterministic n m prog stdin h w r d h2 w2 r2 d2 :
   spec_main n prog stdin = Done h w r d -> spec_main m prog stdin = Done h2 w2 r2 d2 -> h = h2 /\ w = w2 /\ r = r2 /\ d = d2.
 Proof. exact (FuelMono.spec_deterministic n m prog stdin h w r d h2 w2 r2 d2). Qed.
 Print Assumptions spec_deterministic.
+
+(* WHAT ONE EVALUATION HANDS TO THE NEXT: main.main on ps ++ qs answers ps and then qs started in the heap and world ps ended in - the pair (heap, world) is the only carried state (each evaluation starts in the empty environment by definition of spec_main_in) *)
+Theorem evaluations_compose fuel fio :
+  forall ps qs h w,
+  spec_many fuel h w (ps ++ qs)%list fio =
+  (spec_many fuel h w ps fio ++ match state_after fuel h w ps fio with Some (h', w') => spec_many fuel h' w' qs fio | None => [] end)%list.
+Proof. exact (ManySeq.evaluations_compose fuel fio). Qed.
+Print Assumptions evaluations_compose.
+
+(* after the first failure nothing further is evaluated *)
+Theorem nothing_after_a_failure fuel fio ps qs h w :
+  state_after fuel h w ps fio = None ->
+  spec_many fuel h w (ps ++ qs)%list fio = spec_many fuel h w ps fio.
+Proof. exact (ManySeq.nothing_after_a_failure fuel fio ps qs h w). Qed.
+Print Assumptions nothing_after_a_failure.
+
+Theorem one_answer_per_expression fuel fio :
+  forall ps h w h' w', state_after fuel h w ps fio = Some (h', w') ->
+  List.length (spec_many fuel h w ps fio) = List.length ps.
+Proof. exact (ManySeq.one_answer_per_expression fuel fio). Qed.
+Print Assumptions one_answer_per_expression.
 
